@@ -10,7 +10,7 @@ Model: `Model/Dlc.lean` - two endpoints with the state of `DataLinkConnection`
 executes any finite sequence `ops : List (Side × Op)` of steps of both sides, i.e.
 every interleaving of application calls (`send recv busy poll close closeFin`) with
 link activity (`deq ack dlv`).  `init c` is the state after a CONNECT/CC handshake
-with parameters `c`; `c.ok` says RW is in 1..15 on both sides and each side sends
+with parameters `c`; `c.ok` says RW is in 0..15 on both sides (0: the peer can never send) and each side sends
 with the window and at most the MIU the other side announced.  MIU values are
 arbitrary naturals.  `Model/DlcLlc.lean` composes the steps into `collect()`
 (with and without aggregation) and `dispatch()`.
@@ -164,6 +164,10 @@ example : (step (run (init cfg23) [(.A, .send [1]), (.A, .send [2]), (.A, .send 
 example : let s := run (init cfg23) [(.A, .send [1]), (.A, .close), (.A, .deq 128), (.B, .dlv), (.B, .deq 128), (.A, .dlv), (.A, .closeFin)]
     s.a.st = .shutdown ∧ s.b.st = .closeWait ∧ s.a.accepted = [[1]] ∧ s.b.delivered = [] := by decide
 example : (step (init ⟨3, 3, 3, 2, 3, 3, 2, 3⟩) .A (.send [1, 2, 3, 4])).2 = .exc (.llcp 90) := by decide
+/-- RW = 0 announced by B: A can never send, B (window 2) can -/
+example : (⟨128, 128, 0, 2, 128, 128, 2, 0⟩ : Cfg).ok := by decide
+example : (step (init ⟨128, 128, 0, 2, 128, 128, 2, 0⟩) .A (.send [1])).2 = .exc (.llcp 11) ∧
+    (step (init ⟨128, 128, 0, 2, 128, 128, 2, 0⟩) .B (.send [1])).2 = .ok := by decide
 /-- a woken sender with RW(B)=1 and one unacknowledged I PDU: window still full, nothing happens -/
 example : let s := run (init ⟨128, 128, 1, 1, 128, 128, 1, 1⟩) [(.A, .send [1])]
     s.a.sendSlots = 0 ∧ (step s .A (.send [2])).1 = s := by decide
